@@ -84,9 +84,9 @@ theorem ref_opt_leadK (f : Frame) (stack : List Frame) (pos q : Nat) (op : PToke
   simp [hpr, hq, hl, hr]
 
 /-- **a leading `,` / infix identifier, then the first operand of the frame** -/
-theorem expr_lead {inG : Bool} {x ws : List PToken} {op : PToken} (hx : OpdOK x) (hop : isOptTok op = true)
+theorem expr_lead {c : Nat} {inG : Bool} {x ws : List PToken} {op : PToken} (hx : OpdOK c x) (hop : isOptTok op = true)
     (hws : ∀ w ∈ ws, isTriviaTok w = true) (hxne : x ≠ []) :
-    ExprOK inG (op :: (ws ++ x)) false := by
+    ExprOK c inG (op :: (ws ++ x)) false := by
   intro st0 ug p base hO hfs hprios hcg _ hsp pos hnum rest
   obtain ⟨hop3, hsd⟩ := opt_facts hop
   obtain ⟨q, hq, hq20, hnb⟩ := bin3_prio20 op.type (by unfold isBin3Tok at hop3; exact hop3)
@@ -142,7 +142,7 @@ theorem expr_lead {inG : Bool} {x ws : List PToken} {op : PToken} (hx : OpdOK x)
   have hcg1ok : CGOK st1' := by
     unfold CGOK at hcg ⊢
     rw [hcg1', hgs1', hcg1, hgs1]; exact hcg
-  obtain ⟨st2, sub, cb', P, hloopX, hres, hP, hrefX⟩ :=
+  obtain ⟨st2, sub, cb', P, hloopX, hres, hP, hcntX, hrefX⟩ :=
     hx st1' ug hO1' (by rw [hn1']; exact hprios1) hcg1ok _ hnumx rest
   have hres1 : OpdRes st1 st2 sub cb' := hres.transfer hn1'.symm hnp1'.symm hgs1'.symm hcg1'.symm
   have hC2 : st2.nodes[st0.nodes.size]? = some ⟨(getDefinition op.type).1, (getDefinition op.type).2, st0.lastLeft, none,
@@ -181,7 +181,8 @@ theorem expr_lead {inG : Bool} {x ws : List PToken} {op : PToken} (hx : OpdOK x)
     · simp only [SpineG, if_neg (show st0.nodes.size ≠ cb' by omega), hdn]
       exact ⟨hnb, hres1.spine⟩
   refine ⟨st2, _, base, cb', ?_, hinv2, by rw [hres1.gs, hgs1], by rw [hres1.cg, hcg1],
-    fun j hj => hbelow j (by omega), fun j hj => by rw [hbelow j (by omega)], fun _ => hres.ready, ?_⟩
+    fun j hj => hbelow j (by omega), fun j hj => by rw [hbelow j (by omega)], fun _ => hres.ready,
+    by simp only [Tree.inorder, List.nil_append, List.length_cons]; rw [hn1'] at hcntX; omega, ?_⟩
   · simp only [List.cons_append, loop]
     have he' : (ws ++ x ++ rest).isEmpty = false := by cases ws <;> cases x <;> simp_all
     rw [he', h1]
